@@ -2,7 +2,7 @@ import Proofs.Lemmas.CoreActuator10
 import Proofs.Lemmas.CoreTrigger3
 namespace Demeter.Core
 
-theorem runBars_none (cfg : Cfg) (sc : Script) : ∀ (bars : List Int) (row : Nat) (st : St),
+theorem runBars_none (cfg : Cfg) (sc : Script) (hq : ∀ r t, sc.notify r t = []) : ∀ (bars : List Int) (row : Nat) (st : St),
     (∀ t ∈ bars, (priceAt cfg t).isSome) → (∀ x ∈ st.trigs, WF x.k) → (runBars cfg sc row bars st).2.2 = none
   | [], _, _, _, _ => rfl
   | ts :: bars, row, st, hp, hwf => by
@@ -14,12 +14,14 @@ theorem runBars_none (cfg : Cfg) (sc : Script) : ∀ (bars : List Int) (row : Na
       have hph := trigPhase_ok ts st.trigs hwf
       have htp : (barParts cfg sc row ts st price).tp.2.2 = none := by rw [b1, hph]
       have hstep : barStep cfg sc row ts st = ((barParts cfg sc row ts st price).trace row ts, (barParts cfg sc row ts st price).final ts, none) := by
+        have hdone : (barParts cfg sc row ts st price).nt.2.2 = true :=
+          runNotify_quiet sc ts row hq _ 0 _ (by omega)
         unfold barStep
         rw [hpr]
-        simp only [htp]
+        simp only [htp, hdone, if_true]
       have hwf' : ∀ x ∈ ((barParts cfg sc row ts st price).final ts).trigs, WF x.k := by
         rw [b3, hph]; exact WF_phase ts hwf
-      have ih := runBars_none cfg sc bars (row + 1) _ (fun t ht => hp t (List.mem_cons_of_mem _ ht)) hwf'
+      have ih := runBars_none cfg sc hq bars (row + 1) _ (fun t ht => hp t (List.mem_cons_of_mem _ ht)) hwf'
       rw [runBars]
       simp only [hstep, ih]
 
